@@ -801,6 +801,56 @@ func genFuncs() string {
 		emitDef(&sb, "websockets_stripWSHeader (header : Hdr) : Hdr", body, rel+" stripWSHeader")
 	}
 
+	// 6d. websockets shim open: how the dial target is derived from the client-supplied URL
+	{
+		rel := "agent/websockets/shim.go"
+		f := parseFile(rel)
+		fd := mustFunc(f, rel, "", "createShimChannel")
+		if !strings.Contains(src(fd), "targetURL := *(r.URL)") {
+			fail("%s: the open handler no longer starts from a copy of r.URL", rel)
+		}
+		if !strings.Contains(src(fd), "NewConnection(ctx, targetURL.String(), r.Header") {
+			fail("%s: the open handler no longer dials targetURL.String()", rel)
+		}
+		var upd []string
+		seen := map[string]bool{}
+		ast.Inspect(fd, func(n ast.Node) bool {
+			a, ok := n.(*ast.AssignStmt)
+			if !ok || a.Tok != token.ASSIGN || len(a.Lhs) != 1 {
+				return true
+			}
+			se, ok := a.Lhs[0].(*ast.SelectorExpr)
+			if !ok || src(se.X) != "targetURL" {
+				return true
+			}
+			var rhs string
+			switch v := src(a.Rhs[0]); {
+			case v == "host":
+				rhs = "host"
+			case v == "nil":
+				rhs = "none"
+			case v == "false":
+				rhs = "false"
+			default:
+				str, ok := evalString(constEnv{}, a.Rhs[0])
+				if !ok {
+					fail("%s: unsupported assignment to targetURL.%s: %s", rel, se.Sel.Name, v)
+				}
+				rhs = bytesLit(str)
+			}
+			if seen[se.Sel.Name] {
+				fail("%s: targetURL.%s assigned twice", rel, se.Sel.Name)
+			}
+			seen[se.Sel.Name] = true
+			upd = append(upd, se.Sel.Name+" := "+rhs)
+			return true
+		})
+		if len(upd) == 0 {
+			fail("%s: no assignment to targetURL found", rel)
+		}
+		fmt.Fprintf(&sb, "/-- %s createShimChannel (open handler): fields of the copied request URL that are overwritten before dialling -/\ndef websockets_rewriteTarget (host : Bytes) (u : WsUrl) : WsUrl := { u with %s }\n\n", rel, strings.Join(upd, ", "))
+	}
+
 	// 7. tcpbridge routing predicate
 	{
 		rel := "utils/tcpbridge/connection/connection.go"
